@@ -173,27 +173,32 @@ def r2_idempotent(ctx, sym):
     fn = mod.func('tifa_analysis')
     ctx.analysed_function(mod, fn)
     tool = sym.const(mod, ast.parse('TIFA_TOOL_NAME', mode='eval').body)
-    for explicit, cached in itertools.product((True, False), (True, False)):
+    for explicit, cached, succeeds in itertools.product((True, False), (True, False), (True, False)):
         ran = []
         inst = Obj('tifa')
-        inst.attrs['method:process_code'] = lambda code, *a, **k: (ran.append(code) or ('RESULT', code))
+        fresh = Obj('RESULT', success=succeeds, error=None if succeeds else 'internal failure')
+        inst.attrs['method:process_code'] = lambda code, *a, **k: (ran.append(code) or fresh)
         code = 'print(1)'
         data = {'analyses': {code: 'CACHED'} if cached else {}, 'instance': inst, 'latest': None}
         report = Obj('report', submission=Obj('submission', main_code=code))
         report.attrs['method:__getitem__'] = lambda k: data if k == tool else None
-        fd = FD()
-        fd.resolver = lambda name: {'TIFA_TOOL_NAME': tool}[name]
+        from ..fdeval import module_resolver
+        fd = FD(max_steps=100000, resolver=module_resolver(sym, mod))
         try:
             got = fd.call_function(fn, [code] if explicit else [], {'report': report})
+            # idempotence is about the *repeated* call: ask again
+            again = fd.call_function(fn, [code] if explicit else [], {'report': report})
         except (Raised, Inconclusive) as e:
             raise AnalysisError("C18 R2: tifa_analysis outside the decidable fragment: %s" % e)
         if cached:
-            ok = got == 'CACHED' and not ran
-            why = "a repeated analysis returned %r and ran process_code %d time(s)" % (got, len(ran))
+            ok = got == 'CACHED' and again == 'CACHED' and not ran
+            why = "a repeated analysis returned %r / %r and ran process_code %d time(s)" % (got, again, len(ran))
         else:
-            ok = got == ('RESULT', code) and ran == [code] and data['analyses'].get(code) == ('RESULT', code)
-            why = "a first analysis returned %r, ran %r, cached %r" % (got, ran, data['analyses'])
-        ctx.check(ok, 'R2', 'tifa_analysis[explicit=%s,cached=%s]' % (explicit, cached), mod, fn, why,
+            ok = got is fresh and again is fresh and ran == [code] and data['analyses'].get(code) is fresh
+            why = "a first analysis (%s) returned %r, the repetition %r; process_code ran %d time(s); cached %r" % (
+                'completed' if succeeds else 'failed internally', got, again, len(ran), data['analyses'])
+        ctx.check(ok, 'R2', 'tifa_analysis[explicit=%s,cached=%s,%s]' % (
+            explicit, cached, 'completed' if succeeds else 'failed'), mod, fn, why,
                   "tifa_analysis() twice on the same code: the second call attaches the issues to the report again",
                   construct='tifa_analysis')
     # the cache lives in per-report tool data
